@@ -130,6 +130,17 @@ static void c15_run(const hz::ShardCtl& ctl, int nshards, const hz::Args& a, hz:
       std::string e = s; e[dp[x]] = c1; e[dp[y]] = c2; c15_name(e, r, "replace2");
     }
   }
+  if (a.thorough()) {
+    // all PAIRS of single-character replacements over the whole name, for six base names
+    const long long b2[] = {1, -1, 3661, -45296, 86400, -86399};
+    const std::string sig2 = std::string("059+-:/") + std::string(1, '\0');
+    for (long long o : b2) {
+      const std::string s = ref::fixed_name(o);
+      for (size_t x = 0; x < s.size(); ++x) for (size_t y = x + 1; y < s.size(); ++y) for (char c1 : sig2) for (char c2 : sig2) {
+        std::string e = s; e[x] = c1; e[y] = c2; c15_name(e, r, "replace2-anywhere");
+      }
+    }
+  }
   const char* lit[] = {"UTC", "UTC0", "utc", "UTC00", "UTC+0", "UTC-0", "Fixed/UTC", "", "Fixed/UTC+00:00:00", "Fixed/UTC-00:00:00", "Fixed/UTC+24:00:00", "Fixed/UTC-24:00:00",
                        "Fixed/UTC+24:00:01", "Fixed/UTC+23:59:60", "Fixed/UTC+00:99:00", "Fixed/UTC+00:00:99", "Fixed/UTC+99:00:00", "fixed/UTC+01:00:00", "Fixed/utc+01:00:00", "Fixed/UTC +1:00:00",
                        "Fixed/UTC+1:00:00", "Fixed/UTC+01:00", "Fixed/UTC+01:00:00 ", " Fixed/UTC+01:00:00", "Fixed/UTC+01-00-00", "Fixed/UTC*01:00:00", "Fixed/GMT+01:00:00", "GMT", "Z", "UTC1"};
@@ -292,7 +303,7 @@ static void c16_run(const hz::ShardCtl& ctl, int nshards, const hz::Args& a, hz:
     { std::string e = s; e[s.size() / 2] = '\0'; c16_one(e, r, "nul"); std::string f = s; f[s.size() / 2] = '\xff'; c16_one(f, r, "highbyte"); }
   }
   // (c) all strings of length <= L over sigma
-  const int L = a.thorough() ? 6 : 5;
+  const int L = a.thorough() ? 7 : 5;
   const int n = static_cast<int>(sigma.size());
   for (int len = 0; len <= L; ++len) {
     long long total = 1;
